@@ -1,5 +1,8 @@
+(* Types/SubtypeSound.v -- collects the C06 proof files (re-exported for Properties_C06.v). *)
 From Coq Require Import List Arith Bool.
 Import ListNotations.
-From Heph Require Import Types.Syntax Types.Subst Types.Subtype Types.Decl.
+From Heph Require Import Types.Syntax Types.Subst Types.Subtype Types.Decl Types.TableOk.
+From Heph Require Export Types.RefSound.
+
 Lemma nothing_bottom_lem : forall w f t, is_subtype w (S f) TNothing t = Rt.
 Proof. reflexivity. Qed.
